@@ -122,17 +122,29 @@ def reapSocksConn (p : KParams) (ci : Nat) (s : KSt) : KSt :=
   let isCur := x.srvs.any (fun k => k.cur == ci)
   if held || isCur then s else destroySocksConn p ci s
 
-/-- `async_resolve(host, service, handler)` on an internal resolver -/
-def socksResolve (p : KParams) (rname : String) (host : Bytes) (port hn : Nat) (s : KSt) : KSt :=
+/-- `inet_pton(AF_INET, …)` as glibc implements it: four decimal parts of 1–3 digits, each at most
+    255, no leading zero (a lone `0` is fine) -/
+def strictV4 (s : String) : Bool :=
+  let parts := s.splitOn "."
+  parts.length == 4 && parts.all (fun x =>
+    x.length > 0 && x.length ≤ 3 && x.all Char.isDigit && (x.toNat?.getD 256) < 256 && (x.length == 1 || x.front != '0'))
+
+/-- `async_resolve(host, service, handler)` on an internal resolver. `cstr`: the caller passes
+    `hostname.c_str()` (the UDP relay does), so the name ends at its first NUL byte; the address
+    literal test (`make_address_v4(hostname)` → `inet_pton` on `c_str()`) always does. -/
+def socksResolve (p : KParams) (rname : String) (host : Bytes) (cstr : Bool) (port hn : Nat) (s : KSt) : KSt :=
   match s.rs.lookup rname with
   | none => s
   | some (node, r) =>
-    let ascii := host.all (fun b => b.toNat < 128 && b.toNat > 0)
-    let hs := String.ofList (host.map (fun b => Char.ofNat b.toNat))
-    if ascii && isAddrLiteral hs then
-      let x := r.resolveLiteral s.k.now hs port hn
+    let upToNul := host.takeWhile (· != 0)
+    let host := if cstr then upToNul else host
+    let lit := String.ofList (upToNul.map (fun b => Char.ofNat b.toNat))
+    if upToNul.all (fun b => b.toNat < 128) && strictV4 lit then
+      let x := r.resolveLiteral s.k.now lit port hn
       applyREffs p rname x.2 (s.setR rname x.1)
     else
+      let ascii := host.all (fun b => b.toNat < 128 && b.toNat > 0)
+      let hs := String.ofList (host.map (fun b => Char.ofNat b.toNat))
       let req := ((s.net.cfg.ipsOf node).head?).getD "?"
       let s := s.emit ("L lookup t=" ++ toString s.k.now ++ " req=" ++ req ++ " name=" ++ hexOf host)
       let (err, ips, lat) := (if ascii then s.net.cfg.dns.lookup hs else none).getD (Ec.hostNotFound, [], 100000000)
@@ -179,10 +191,10 @@ def socksActs (p : KParams) : Nat → Nat → List Act → KSt → KSt
           cwStart p (sockName k ci sk) bytes id s
         | .resolve host port op =>
           let (s, id) := s.skAlloc (.conn ci op)
-          socksResolve p (sxRes k ci) host port id s
+          socksResolve p (sxRes k ci) host false port id s
         | .udpResolve host port op =>
           let (s, id) := s.skAlloc (.conn ci op)
-          socksResolve p (sxURes k ci) host port id s
+          socksResolve p (sxURes k ci) host true port id s
         | .connect addr port op =>
           let (s, id) := s.skAlloc (.conn ci op)
           let s := fxN p (s.net.tcpOpen now (sxSrv k ci) true) s
